@@ -10,10 +10,17 @@ for fn in sorted(glob.glob(os.path.join(HERE, "manifest.d", "C*.json"))):
     M.CLAIMED[os.path.basename(fn)[:-5]] = json.load(open(fn))
 # known findings: findings.d/*.jsonl -> known_findings.jsonl
 lines = []
+fixed_lines = []
 for fn in sorted(glob.glob(os.path.join(HERE, "..", "findings.d", "*.jsonl"))):
     for l in open(fn):
         if l.strip():
-            lines.append(l.strip())
+            j = json.loads(l)
+            if j.get("status") == "fixed":
+                what = " ".join(str(j.get("what", "")).split())
+                fixed_lines.append(f"fixed: property={j['property']} {j.get('fixed_commit', '?')} {j['finding_id']} {j.get('call_site', '')}: {what}")
+            else:
+                lines.append(l.strip())
+lines = lines + fixed_lines
 open(os.path.join(HERE, "..", "known_findings.jsonl"), "w").write("\n".join(lines) + ("\n" if lines else ""))
 props = [json.loads(l)["id"] for l in open(os.path.join(HERE, "..", "properties.jsonl"))]
 checks = []
